@@ -551,7 +551,7 @@ class Runner {
       }
     for (auto& w : worlds) w->watch = nullptr;
     begin_op();
-    static const unsigned w_full[] = {14, 6, 10, 6, 12, 10, 8, 6, 5, 4, 9, 5, 5, 6, 5, 5, 4};
+    static const unsigned w_full[] = {14, 6, 10, 6, 12, 10, 8, 6, 8, 4, 9, 5, 5, 6, 5, 5, 4};
     static const unsigned w_red[] = {10, 5, 8, 4, 8, 8, 8, 6, 0, 4, 6, 3, 0, 3, 0, 3, 0};
     unsigned op = (unsigned)(opt.reduced_alphabet ? s.pick(w_red) : s.pick(w_full));
     if (!opt.doc_level_ops && op == 13) op = 0;
@@ -948,6 +948,48 @@ class Runner {
       ht.form = 2;
       ht.handle = hi;
       set_hole(ht);
+    }
+    if (s.chance(1, 3)) {
+      // JsonArray::set(JsonArrayConst) / JsonObject::set(JsonObjectConst) from a source of the same kind
+      std::vector<int> srcs;
+      for (int i : live_handles(-1, 7)) {
+        const Val* sn = find_id(m.docs[(size_t)m.handles[(size_t)i].doc].root, m.handles[(size_t)i].id);
+        if (sn && sn->k == (h.type == 1 ? Val::Arr : Val::Obj)) srcs.push_back(i);
+      }
+      if (!srcs.empty()) {
+        int si = srcs[s.below(srcs.size())];
+        MHandle& sh = m.handles[(size_t)si];
+        const Val* sn = find_id(m.docs[(size_t)sh.doc].root, sh.id);
+        bool overlap = sh.doc == h.doc && (contains_id(*n, sn->id) || contains_id(*sn, n->id));
+        if (overlap && !opt.allow_alias_ops) {
+          st.alias_excluded++;
+          ctx.known("alias_overlap");
+          return;
+        }
+        note("h" + std::to_string(hi) + (h.type == 1 ? "(array)" : "(object)") + ".set(h" + std::to_string(si) + ")");
+        st.copies++;
+        st.container_sets++;
+        Val snapshot = *sn;
+        uint64_t id = n->id;
+        *n = snapshot;
+        n->id = id;
+        m.renumber_children(*n);
+        for (auto& w : worlds) {
+          LHandle& dl = w->handles[(size_t)hi];
+          LHandle& sl = w->handles[(size_t)si];
+          bool r;
+          if (h.type == 1) {
+            JsonArrayConst src = sh.type == 1 ? JsonArrayConst(sl.a) : sl.v.as<JsonArrayConst>();
+            r = dl.a.set(src);
+          } else {
+            JsonObjectConst src = sh.type == 2 ? JsonObjectConst(sl.o) : sl.v.as<JsonObjectConst>();
+            r = dl.o.set(src);
+          }
+          ret_check(r, true, "container set() returned false");
+        }
+        after_insert();
+        return;
+      }
     }
     if (h.type == 1) {
       switch (s.below(6)) {
